@@ -528,12 +528,17 @@ def generate(ctx):
                     ctx.run("aptos_decode", [t], "dec")
     zero_byte_checksum_keys(ctx)
     # taproot: keys whose OUTPUT key x has a leading zero byte (the fixed-width bug class), by search
-    found, k = 0, 1
-    while found < ctx.n(2, 8) and k < 4000:
+    # ... and keys whose INTERNAL key x has a leading zero byte (x serialised without a fixed width before the
+    # TapTweak hash; seeded change C09-7), by the same search
+    found, found_in, k = 0, 0, 1
+    while (found < ctx.n(2, 8) or found_in < ctx.n(2, 8)) and k < 4000:
         c, _u = secp(k)
-        if taproot_ref(c)[0] == 0:
+        if found < ctx.n(2, 8) and taproot_ref(c)[0] == 0:
             ctx.run("taproot_tweak", [c], "lead0-out")
             found += 1
+        if found_in < ctx.n(2, 8) and c[1] == 0:
+            ctx.run("taproot_tweak", [c], "lead0-in")
+            found_in += 1
         k += 1
     # aptos: a key whose hash has leading zero nibbles (searched)
     cnt = 0
